@@ -417,6 +417,44 @@ Definition parsed_name (name : str) : str :=
   (if 1 <? length (split_on DOT name) then ns_of name ++ [DOT] else []) ++ rel_of name.
 Definition printed_name (name : str) : str :=
   if is_nil (ns_of name) then rel_of name else ns_of name ++ [DOT] ++ rel_of name.
+(* dots rejoin: without an empty namespace segment the reader's and the writer's way of
+   reassembling namespace + relname both give the name back *)
+Definition no_empty_ns (name : str) : bool := negb (existsb is_nil (init_strs (split_on DOT name))).
+Lemma join_hd0 d (a : ascii) y rest : join d ((a :: y) :: rest) = a :: join d (y :: rest).
+Proof. destruct rest; reflexivity. Qed.
+Lemma join_split_on c s : join [c] (split_on c s) = s.
+Proof.
+  induction s as [|a r IH]; [reflexivity|]. cbn [split_on]. destruct (aeqb_spec a c) as [->|N].
+  - rewrite join_cons by apply split_on_nonempty. cbn [app]. now rewrite IH.
+  - destruct (split_on c r) as [|h t] eqn:E; [now apply split_on_nonempty in E|]. rewrite join_hd0. f_equal. exact IH.
+Qed.
+Lemma join_snoc d (X : list str) y : X <> [] -> join d (X ++ [y]) = join d X ++ d ++ y.
+Proof.
+  induction X as [|x X IH]; intros H; [contradiction|]. destruct X as [|x2 X2]; [reflexivity|].
+  cbn [app]. rewrite join_cons by (destruct X2; discriminate). rewrite (join_cons d x (x2 :: X2)) by discriminate.
+  change (x2 :: X2 ++ [y]) with ((x2 :: X2) ++ [y]). rewrite IH by discriminate. now rewrite <- !app_assoc.
+Qed.
+Lemma rejoin_gen (X : list str) (y : str) : existsb is_nil X = false ->
+  (if is_nil (join [DOT] X) then y else join [DOT] X ++ [DOT] ++ y) = join [DOT] (X ++ [y])
+  /\ (if 1 <? length (X ++ [y]) then join [DOT] X ++ [DOT] else []) ++ y = join [DOT] (X ++ [y]).
+Proof.
+  intros H. destruct X as [|x X].
+  - cbn. now split.
+  - rewrite join_snoc by discriminate.
+    assert (NJ : is_nil (join [DOT] (x :: X)) = false).
+    { cbn [existsb] in H. apply orb_false_iff in H as [H1 _]. destruct x as [|a x']; [discriminate|]. now rewrite join_hd0. }
+    rewrite NJ. rewrite app_length. cbn [length].
+    replace (1 <? S (length X) + 1) with true by (symmetry; apply Nat.ltb_lt; lia).
+    split; [reflexivity|]. now rewrite <- app_assoc.
+Qed.
+Lemma name_rejoin name : no_empty_ns name = true -> printed_name name = name /\ parsed_name name = name.
+Proof.
+  unfold no_empty_ns, printed_name, parsed_name, ns_of, rel_of, last_str, init_strs. intros H. apply negb_true_iff in H.
+  pose proof (join_split_on DOT name) as J. pose proof (split_on_nonempty DOT name) as NE.
+  destruct (exists_last NE) as [X [y E]]. rewrite E in *. rewrite removelast_last in *. rewrite last_last.
+  rewrite <- J. now apply rejoin_gen.
+Qed.
+
 Definition FAof (ds : str) (c : cpt) : list str := elide (fmtargs ds (c_args c)) (rel_of (c_name c)).
 Definition kwf (L : layout) : list str := match L_K L with Some k => [p_name k] | None => [] end.
 Definition rest_fields (ds : str) (L : layout) (c : cpt) : list str :=
@@ -433,9 +471,10 @@ Definition wf_cpt (g : grammar) (rules : list rule) (i : nat) (r : rule) (c : cp
   let FR := rest_fields ds L c in
   (* class *)
   negb (str_eqb (c_class c) S_XX) && str_eqb (c_class c) (r_class r)
-  (* name: not an anonymous A/O/W/P name, dots rejoin, longest type prefix is the rule's type, not a directive *)
+  (* name: not an anonymous A/O/W/P name, no empty namespace segment (the reader rejects it), longest type prefix is
+     the rule's type, not a directive *)
   && negb (is_anon_name relname)
-  && str_eqb (printed_name name) name && str_eqb (parsed_name name) name
+  && no_empty_ns name
   && (match match_type g relname with
       | Some (ty, id) => str_eqb ty (r_type r) && negb ((is_nil id && str_in ty anon_types) || str_eqb id [QM])
       | None => false end)
@@ -636,8 +675,8 @@ Proof.
   match goal with H : forallb (field_ok ds) _ = true |- _ => rename H into Hfields end.
   match goal with H : str_eqb (strip_value relname) relname = true |- _ => apply str_eqb_true in H; rename H into Hsv end.
   match goal with H : negb (is_directive g name) = true |- _ => apply negb_true_iff in H; rename H into Hdir end.
-  match goal with H : str_eqb (parsed_name name) name = true |- _ => apply str_eqb_true in H; rename H into Hpar end.
-  match goal with H : str_eqb (printed_name name) name = true |- _ => apply str_eqb_true in H; rename H into Hpri end.
+  match goal with H : no_empty_ns name = true |- _ => rename H into Hns end.
+  destruct (name_rejoin name Hns) as [Hpri Hpar].
   match goal with H : negb (is_anon_name relname) = true |- _ => apply negb_true_iff in H; rename H into Hanon end.
   match goal with H : str_eqb (c_class c) (r_class r) = true |- _ => apply str_eqb_true in H; rename H into Hcls end.
   match goal with H : match match_type g relname with _ => _ end = true |- _ => rename H into Hmt end.
@@ -682,7 +721,8 @@ Proof.
   { apply split_join; [exact Hsp|]. apply Forall_forall. intros x Hx. rewrite forallb_forall in Hfields. now apply Hfields. }
   rewrite SJ.
   (* parse_cpt *)
-  unfold parse_cpt. fold (rel_of name). fold relname.
+  unfold parse_cpt. assert (Hns' := Hns). unfold no_empty_ns in Hns'. apply negb_true_iff in Hns'. rewrite Hns'.
+  fold (rel_of name). fold relname.
   destruct (match_type g relname) as [[ty id]|]; [|discriminate].
   apply andb_true_iff in Hmt as [Ety Hanon2]. apply str_eqb_true in Ety. subst ty. apply negb_true_iff in Hanon2.
   rewrite Hdict. destruct rules as [|r0 rs]; [destruct i; discriminate|].
@@ -770,10 +810,18 @@ Proof.
   induction types as [|t r IH]; intros best H; [reflexivity|]. cbn [forallb] in H. apply andb_true_iff in H as [H1 H2].
   apply negb_true_iff in H1. cbn [best_type]. rewrite H1. cbn [andb]. now apply IH.
 Qed.
+(* empty namespace segment ('.R1', 'a..R1' as a name field) *)
+Theorem reject_empty_namespace g st ns net name fields rest :
+  no_empty_ns name = false -> parse_cpt g st ns net name fields rest = Err EEmptyNs.
+Proof. unfold no_empty_ns. intros H. apply negb_false_iff in H. unfold parse_cpt. now rewrite H. Qed.
 Theorem reject_unknown_type g st ns net name fields rest :
+  no_empty_ns name = true ->
   forallb (fun t => negb (starts_with t (last_str (split_on DOT name)))) (map fst (g_dict g)) = true ->
   parse_cpt g st ns net name fields rest = Err EUnknownCpt.
-Proof. intros H. unfold parse_cpt, match_type. now rewrite (best_type_none _ _ None H). Qed.
+Proof.
+  unfold no_empty_ns. intros Hn H. apply negb_true_iff in Hn. unfold parse_cpt, match_type. rewrite Hn.
+  now rewrite (best_type_none _ _ None H).
+Qed.
 
 (* too many fields: whatever rule of the type is selected *)
 Lemma select_in rules fields d : forall leak, In (fst (fst (select rules fields d leak))) (d :: rules).
@@ -789,12 +837,13 @@ Theorem reject_too_many_fields r fields name ns dflt :
   length (r_params r) < length fields -> process r fields name ns dflt = Err ETooMany.
 Proof. intros H. unfold process. destruct (Nat.ltb_spec (length (r_params r)) (length fields)); [reflexivity|lia]. Qed.
 Theorem reject_too_many g st ns net name fields rest ty id rules :
+  no_empty_ns name = true ->
   match_type g (last_str (split_on DOT name)) = Some (ty, id) ->
   assoc_get ty (g_dict g) = Some rules -> rules <> [] ->
   Forall (fun r => length (r_params r) < length fields) rules ->
   parse_cpt g st ns net name fields rest = Err ETooMany.
 Proof.
-  intros Hm Hd Hne Hall. unfold parse_cpt. rewrite Hm, Hd. destruct rules as [|r0 rs]; [contradiction|].
+  unfold no_empty_ns. intros Hn Hm Hd Hne Hall. apply negb_true_iff in Hn. unfold parse_cpt. rewrite Hn, Hm, Hd. destruct rules as [|r0 rs]; [contradiction|].
   pose proof (select_in (r0 :: rs) fields r0 None) as Hin.
   destruct (select (r0 :: rs) fields r0 None) as [[r kw] leak]. cbn [fst] in Hin.
   assert (Hr : length (r_params r) < length fields).
@@ -911,7 +960,7 @@ Definition wf_anon (g : grammar) (rules : list rule) (i : nat) (r : rule) (c : c
   let FR := rest_fields ds L c in
   negb (str_eqb (c_class c) S_XX) && str_eqb (c_class c) (r_class r)
   && is_anon_name (rel_of name)
-  && str_eqb (rel_of pn) (firstn 1 (rel_of name))
+  && no_empty_ns pn && str_eqb (rel_of pn) (firstn 1 (rel_of name))
   && (match match_type g (firstn 1 (rel_of name)) with
       | Some (ty, id) => str_eqb ty (r_type r) && is_nil id && str_in ty anon_types
       | None => false end)
@@ -1010,6 +1059,7 @@ Proof.
   match goal with H : forallb (field_ok ds) _ = true |- _ => rename H into Hfields end.
   match goal with H : negb (is_directive g pn) = true |- _ => apply negb_true_iff in H; rename H into Hdir end.
   match goal with H : str_eqb (rel_of pn) _ = true |- _ => apply str_eqb_true in H; rename H into Hrel end.
+  match goal with H : no_empty_ns pn = true |- _ => rename H into Hns end.
   match goal with H : is_anon_name (rel_of name) = true |- _ => rename H into Hanon end.
   match goal with H : str_eqb (c_class c) (r_class r) = true |- _ => apply str_eqb_true in H; rename H into Hcls end.
   match goal with H : match match_type g _ with _ => _ end = true |- _ => rename H into Hmt end.
@@ -1052,7 +1102,7 @@ Proof.
   assert (SJ : split ds main = Some (pn :: FR)).
   { apply split_join; [exact Hsp|]. apply Forall_forall. intros x Hx. rewrite forallb_forall in Hfields. now apply Hfields. }
   rewrite SJ.
-  unfold parse_cpt. fold (rel_of pn). rewrite Hrel.
+  unfold parse_cpt. unfold no_empty_ns in Hns. apply negb_true_iff in Hns. rewrite Hns. fold (rel_of pn). rewrite Hrel.
   destruct (match_type g (firstn 1 (rel_of name))) as [[ty id]|]; [|discriminate].
   apply andb_true_iff in Hmt as [Hmt Hin]. apply andb_true_iff in Hmt as [Ety Hid]. apply str_eqb_true in Ety. subst ty.
   rewrite Hdict. destruct rules as [|r0 rs] eqn:ER; [destruct i; discriminate|].
